@@ -116,7 +116,7 @@ def date_parts(txt):
     return ps // 10 ** 9, ps % 10 ** 9
 
 
-def run_pair(ctx, tag, p, txt, extra_cfg=(), timeout=120):
+def run_pair(ctx, tag, p, txt, extra_cfg=(), timeout=60):
     """online run with TI tracing, then replay. Returns dict(online, replay per-rank sequences | error)."""
     drv = drivers.get("mpi_replay_prog")
     d = os.path.join(ctx.scratch, tag)
@@ -229,8 +229,11 @@ def run(ctx):
     dis = [i for i, v in enumerate(verdicts) if v[0] != "ok"]
     ctx.cov["disagreements_first_pass"] = len(dis)
     checked = 0
-    for i in dis:
-        x2 = run_pair(ctx, "c%d" % i, progs[i], txts[i])
+    MAXCONF = 15   # disagreements re-run and reported (the others are counted)
+    ctx.cov["disagreements_not_reexamined"] = max(0, len(dis) - MAXCONF)
+    dis = dis[:MAXCONF]
+    again = vlib.parallel_map(lambda i: run_pair(ctx, "c%d" % i, progs[i], txts[i]), dis)
+    for i, x2 in zip(dis, again):
         checked += 1
         if "error" in x2:
             raise vlib.InfraError("online run failed on re-run: " + x2["error"])
